@@ -57,7 +57,8 @@ def run_extract(prop):
     """regenerate Pangaea/Generated/<prop>*.lean from /repo's sources"""
     ex = os.path.join(BUILD, 'extract')
     gens = CHECKS[prop].get('generated', [])
-    if not gens:
+    hgens = CHECKS[prop].get('generated_by_harness', [])
+    if not gens and not hgens:
         return True, ''
     os.makedirs(os.path.join(LEAN, 'Pangaea', 'Generated'), exist_ok=True)
     msgs = []
@@ -77,6 +78,20 @@ def run_extract(prop):
             else:
                 os.remove(tmp)
         msgs.append(err)
+    # facts dumped by the harness (it links /repo's packages): `harness -out F GEN_<name>`
+    for g in hgens:
+        target = os.path.join(LEAN, 'Pangaea', 'Generated', g + '.lean')
+        tmp = target + '.tmp.%d' % os.getpid()
+        rc, out, err = sh([os.path.join(BUILD, 'harness'), '-out', tmp, 'GEN_' + g], env=GOENV)
+        if rc != 0 or not os.path.exists(tmp):
+            return False, 'harness generator failed for %s:\n%s%s' % (g, out, err)
+        with Lock('lake'):
+            old = open(target).read() if os.path.exists(target) else None
+            new = open(tmp).read()
+            if old != new:
+                os.replace(tmp, target)
+            else:
+                os.remove(tmp)
     return True, '\n'.join(msgs)
 
 
